@@ -1,10 +1,14 @@
 #!/usr/bin/env python3
-"""Prints the markdown table of seeded changes (DESIGN.md section 11.5) from seeded/*/meta.json."""
+"""[--write: into DESIGN.md between the SEED-TABLE markers] Prints the markdown table of seeded changes (DESIGN.md section 11.5) from seeded/*/meta.json."""
 import json, os, glob
 V = os.path.dirname(os.path.dirname(os.path.abspath(__file__)))
 def short(s, n):
     s = ' '.join(s.split())
     return s if len(s) <= n else s[:n - 1].rsplit(' ', 1)[0] + ' …'
+import sys, io
+out = io.StringIO()
+_print = print
+def print(*a): _print(*a, file=out)
 print('| id | change | needs | result |')
 print('|---|---|---|---|')
 for d in sorted(glob.glob(os.path.join(V, 'seeded', '*'))):
@@ -20,3 +24,8 @@ for d in sorted(glob.glob(os.path.join(V, 'seeded', '*'))):
     elif missed: res = 'MISSED by ' + ', '.join(missed)
     else: res = 'not evaluated'
     print('| %s | %s | %s | %s |' % (os.path.basename(d), short(m['what'], 150).replace('|', '/'), short(m['needs'], 130).replace('|', '/'), res))
+if '--write' in sys.argv:
+    p = os.path.join(V, 'DESIGN.md'); d = open(p).read()
+    a, b = d.index('<!-- SEED-TABLE-BEGIN -->') + len('<!-- SEED-TABLE-BEGIN -->'), d.index('<!-- SEED-TABLE-END -->')
+    open(p, 'w').write(d[:a] + '\n' + out.getvalue() + d[b:])
+else: sys.stdout.write(out.getvalue())
